@@ -102,7 +102,15 @@ SPEC = dict(
         "rank 0 (MORE_DIST_STATS), read from the statistics file at the end of each harness process.",
         "Inputs CuSP itself does not survive are avoided (C19's subject): fewer nodes than hosts; an edge-less graph with the "
         "streaming policies (Fennel/Ginger/Sugar score is NaN, out-of-bounds host index).",
-        "GluonEdgeSubstrate (edge-proxy sync over MiningGraph) is not exercised: no application calls its sync; "
-        "GALOIS_SYNC_STRUCTURE_REDUCE_PAIR_WISE_ADD_ARRAY_SINGLE + VECTOR_BITSET are not covered (see report).",
+        "GluonEdgeSubstrate (edge-proxy sync over MiningGraph) is not exercised: no application calls its sync. "
+        "GALOIS_SYNC_STRUCTURE_REDUCE_PAIR_WISE_ADD_ARRAY_SINGLE + GALOIS_SYNC_STRUCTURE_VECTOR_BITSET (element-wise vector sync) cannot "
+        "be instantiated at all: SyncStructures.h:1896 does not parse ('unsigned uint8_t*') and GluonSubstrate.h:2378-2381 passes "
+        "setSubset's template arguments in the wrong order; GALOIS_SYNC_STRUCTURE_REDUCE_PAIR_WISE_AVG_ARRAY is not associative, "
+        "so it has no schedule-independent reference with more than one contribution and is not exercised.",
+        "Liveness is not decided by wall clock: a sync that never returns ends as 'inconclusive' through the driver watchdog. One "
+        "logical liveness verdict exists: in an asynchronous phase a host may send at most 64 x hosts x (proxies + 64) messages (a "
+        "call only sends when a bit is set; bits are set by the harness' writes and by strict improvements of a master); beyond "
+        "that the key C18:sync:async-resends-without-updates:* is recorded. The opt-in runs (VERIF_C18_ASYNC_ENFORCED=1, "
+        "--param asyncmodes=1) reach it on the unfixed tree under an enforced bitset/offsets/gids mode.",
     ],
 )
